@@ -30,7 +30,21 @@ fn main() {
     outcome::install_panic_hook();
     // the libraries' generated dispatch functions have very large stack frames in unoptimised builds
     let worker = args.iter().any(|a| a == "--worker");
-    let code = match id {
+    // (workers make their own big-stack thread; the supervisors and the in-process checks run on this one)
+    let id = id.to_string();
+    let h = std::thread::Builder::new().stack_size(512 << 20).spawn(move || run(&id, worker, tier, replay)).expect("spawn");
+    let code = match h.join() {
+        Ok(c) => c,
+        Err(_) => {
+            eprintln!("check thread panicked");
+            2
+        }
+    };
+    std::process::exit(code);
+}
+
+fn run(id: &str, worker: bool, tier: vcommon::Tier, replay: Option<String>) -> i32 {
+    match id {
         "C01" if worker => c01::worker(tier),
         "C01" => c01::run(tier, replay),
         "C02" if worker => c02::worker(tier),
@@ -46,6 +60,5 @@ fn main() {
             eprintln!("usage: codec_harness <C01..C06|C14> quick|thorough [--replay file]");
             2
         }
-    };
-    std::process::exit(code);
+    }
 }
